@@ -598,8 +598,8 @@ func reInputSx(in *c18In, o *c18Obs) Sx {
 			// the model is TOLD so, and decides by itself that no Close follows
 			lateFlag = 2
 		}
-		if a == 0 && in.Variant == "hist" && !lp.Failed && lp.Late == 1 && lp.LateOk == 1 && end != 0 && k-1 < len(in.Hist) && strings.HasPrefix(in.Hist[k-1].End, "disc") {
-			lateFlag = 2 // the one ping that was past its poll of quit when the application called Disconnect: observed
+		if a == 0 && in.Variant == "hist" && lp.Late == 1 && ((!lp.Failed && lp.LateOk == 1) || (lp.Failed && lp.LateOk == 0 && !lp.Closed)) {
+			lateFlag = 2 // the one ping that was past its poll of quit when the session ended: observed (after the marker, no Close)
 		}
 		inp := L(Zi(in.IvUs), Zi(term), Zi(failAt), Zi(lp.NSucc), LS(suf), Z(1), B(true), Zi(lp.SrvN), L(), Zi(end), B(true), Zi(lateFlag))
 		atts = append(atts, L(Zi(a), inp))
